@@ -34,6 +34,7 @@ def dispatch (op : String) (args : List String) (obs : String) : String × Strin
   | "crd" => c02crd args obs
   | "crc" => c02crc args obs
   | "cwr" => c02cwr args obs
+  | "cwrs" => c02cwr args obs   -- same bytes through io.WriteString / io.Copy: same model
   | "cwrr" => c02cwrr args obs
   | "mf" => c02mf args obs
   | "chk" => c03chk args obs
